@@ -14,6 +14,25 @@ from .index import Scope, walk_local
 from .common import norm
 
 
+class LazyWitness:
+    def __init__(self, alts):
+        self.alts = alts
+
+    def __or__(self, other):
+        if other is None:
+            return self
+        return LazyWitness(self.alts + other.alts)
+
+    __ror__ = __or__
+
+    def resolve(self):
+        for cons, extra in self.alts:
+            m = find_model(cons + extra, budget=400000)
+            if m is not None:
+                return {k: v for k, v in m.items() if "#" not in k and not k.startswith("__")}
+        return None
+
+
 class SegmentModel:
     def __init__(self, ix, cg):
         self.ix = ix
@@ -259,10 +278,9 @@ class SegmentModel:
     # ------------------------------------------------------------------ helpers for obligations
     @staticmethod
     def witness(cons, extra=()):
-        m = find_model(list(cons) + list(extra), budget=400000)
-        if m is None:
-            return None
-        return {k: v for k, v in m.items() if "#" not in k and not k.startswith("__")}
+        """A lazily computed concrete witness (model of the path condition + extra): only searched for when an
+        obligation actually fails.  `a | b` = first alternative that has a model."""
+        return LazyWitness([(list(cons), list(extra))])
 
     def decompose_segment(self, y):
         """Split the yielded (bytes, size) into header / body slice / padding pieces; None if it has another shape."""
